@@ -211,7 +211,7 @@ def replay_states(sc):
         if brk:
             break
         seen.append(st if not isinstance(st, (int, np.integer)) else (int(st),))
-        x = sm._last_projected_index + 1
+        x += 1  # the inversion sampler asks for index 0, 1, 2, ...: the number of states it has logged so far
     P.PairingToZ1d.project.cache_clear()
     import itertools
 
@@ -429,6 +429,12 @@ def h_states_sound(ctx, dim, n=None, L=None, R=None):
     grid, pairing, sm = _make_manager(sc)
     rp = (replay_states, lambda m: sc)
     x = ctx.int("x", 0, sm.max_frontier_indices + 2)
+    # one inductive step from an arbitrary state of the cursor: the sampler's k-th call passes x = k while the manager has already handed
+    # out the index `last` >= x - 1 (it may have skipped inadmissible indices)
+    last = ctx.int("last", -1, sm.max_frontier_indices + 1)
+    ctx.assume(x <= last + 1)
+    sm._last_projected_index = last.__index__()
+    last = sm._last_projected_index
     st, brk = sm.project_index_to_state_increment(x)
     if brk:
         return
@@ -436,10 +442,11 @@ def h_states_sound(ctx, dim, n=None, L=None, R=None):
     ctx.prove("C14.states.in_grid_non_origin", AND(*[AND(v >= lo, v <= hi) for v in st], OR(*[v != 0 for v in st])), replay=rp)
     j = pairing.pair(st)
     ctx.prove("C14.states.index_ge_request", AND(j >= x, EQ(j, sm._last_projected_index)), replay=rp)
+    ctx.prove("C14.states.every_call_returns_a_state_not_returned_before", j > last, info={"last": last}, replay=rp)
     t = tuple(ctx.int(f"t{i}", lo, hi) for i in range(dim))
     ctx.assume(OR(*[v != 0 for v in t]))
     jt = pairing.pair(t)
-    ctx.prove("C14.states.no_admissible_state_skipped", NOT(AND(jt >= x, jt < j)), replay=rp)
+    ctx.prove("C14.states.no_admissible_state_skipped", NOT(AND(jt > last, jt >= x, jt < j)), replay=rp)
 
 
 # ---- IEEE lemma: floor(fl_sqrt(z)) == isqrt(z)
@@ -590,7 +597,7 @@ def harnesses(tier):
     return hs
 
 
-EXPECT = ["C14.Cantor.proj_pair", "C14.Cantor.pair_proj", "C14.Szudzik.proj_pair", "C14.Szudzik.pair_proj",
+EXPECT = ["C14.states.every_call_returns_a_state_not_returned_before", "C14.Cantor.proj_pair", "C14.Cantor.pair_proj", "C14.Szudzik.proj_pair", "C14.Szudzik.pair_proj",
           "C14.RosenbergStrong.proj_pair", "C14.RosenbergStrong.pair_proj", "C14.PepisKalmar.proj_pair", "C14.PepisKalmar.pair_proj",
           "C14.fold.proj_map", "C14.fold.map_proj", "C14.lazy_product.injective", "C14.states.returns_state_of_index",
           "C14.PairingToZ1d.natural.pair_project", "C14.ieee.floor_sqrt_is_isqrt"]
